@@ -153,6 +153,17 @@ class Block(composites.Composite):
 
         return b
 
+    def restoreBackup(self, paramsToApply):
+        """
+        Restore the parameters from the previously created backup.
+
+        Whether the volume of a derived-shape component is up to date is not part of the saved
+        state: the restored component volumes may stem from before a change that was still pending
+        when the backup was made, so have the derived shape recomputed on next use.
+        """
+        composites.Composite.restoreBackup(self, paramsToApply)
+        self.derivedMustUpdate = True
+
     def createHomogenizedCopy(self, pinSpatialLocators=False):
         """
         Create a copy of a block.
